@@ -182,7 +182,7 @@ func (tr *tracer) stop() []traceEv {
 		return nil
 	}
 	// a dying coroutine logs "exit" after it has handed control back: give it time (bounded) to do so
-	for i := 0; i < 3000; i++ {
+	for i := 0; i < waitLimit(); i++ {
 		tr.mu.Lock()
 		done := tr.nExit >= tr.nDead
 		tr.mu.Unlock()
@@ -190,6 +190,7 @@ func (tr *tracer) stop() []traceEv {
 			break
 		}
 		time.Sleep(time.Millisecond)
+		waited()
 	}
 	rt.VerifCtxHook = nil
 	rt.VerifThreadHook = nil
